@@ -15,9 +15,10 @@ import (
 )
 
 func init() {
-	register(&Rule{ID: "P-JSON-LITERAL", Props: []string{"C16", "C04", "C05", "C08"}, Floor: 3,
-		Doc: "a backtick literal is decoded from the text with every escaped backtick replaced (strings.ReplaceAll), by a json.Decoder on which UseNumber is called before Decode, and a success is returned only after Decoder.Token reported io.EOF (nothing follows the value); json.Unmarshal is used only into *string or *json.Number",
-		Run: rulePJSONLiteral})
+	// P-JSON-LITERAL (retired): a typestate rule over the one function that holds the json.Decoder calls; it lost its
+	// footing when the calls were moved into helpers. Subsumed by P-JSON-DECODE (rules_json.go), which interprets the
+	// literal parser with encoding/json modelled.
+	_ = rulePJSONLiteral
 	// P-ESCAPE-TABLE (retired): subsumed by P-DECODE, which interprets the decoders on symbolic texts (rules_sdom.go)
 	_ = rulePEscapeTable
 	register(&Rule{ID: "E-CLAMP-SIBLINGS", Props: []string{"C12"}, Floor: 0,
